@@ -450,6 +450,14 @@ func (gsr *GoStructRegistryType) GetOrCreateSliceType(rt *RegisteredType) *Regis
 		Q("type named '%v' already registered, re-using the type", sliceName)
 	} else {
 		Q("registering new slice type '%v'", sliceName)
+		if rt.TypeCache == nil {
+			// element types without a Go type (plain hashes, defmap
+			// records) have no slice type; reflect.SliceOf(nil) crashed
+			// with a nil pointer dereference as soon as a variable
+			// bound to an array of hashes was re-bound:
+			// (def a [(hash k:1)]) (def a [(hash k:2)]).
+			return nil
+		}
 		derivedType := reflect.SliceOf(rt.TypeCache)
 		sliceRt = NewRegisteredType(func(env *Zlisp, h *SexpHash) (interface{}, error) {
 			return reflect.MakeSlice(derivedType, 0, 0), nil
